@@ -153,6 +153,9 @@ func judgeB(c *core.Ctx, rn *runner, vars []variant, runs []*runB) error {
 				c.Sample(map[string]any{"engine": "B", "variant": r.Variant, "seed": r.Seed, "calls": len(r.Events), "first_events": r.Events[:k], "result": "accepted by TraceKV"})
 			}
 			// the nil-vs-empty lead config (never a violation)
+			if !c.Thorough() {
+				return nil
+			}
 			if tf2, err := c.ValidateTrace("TraceKV", "TraceKV_lead.cfg", recs, core.Timeout(15*time.Minute), core.Heap(4000), traceOpt("TraceKV.cfg")); err == nil && tf2 != nil && tf2.Invariant == "EmptyNotNil" {
 				c.Extra("lead_empty_value_returned_as_nil", fmt.Sprintf("event %d of the concatenated engine-B trace", tf2.Line-1))
 			}
@@ -197,8 +200,8 @@ func judgeB(c *core.Ctx, rn *runner, vars []variant, runs []*runB) error {
 					if k0 < 0 {
 						k0 = 0
 					}
-					c.Violation(r.Variant+":"+class, fmt.Sprintf("KV store %s, recorded random run seed %d: TraceKV invariant %s fails at call %d: %v", r.Variant, r.Seed, tf.Invariant, local, r.Events[local]),
-						map[string]any{"engine": "B", "variant": r.Variant, "invariant": tf.Invariant, "event": local, "events_before": r.Events[k0 : local+1], "run": metaOnly(r)})
+					c.Violation(r.Variant+":"+class, fmt.Sprintf("KV store %s: a recorded random run is rejected by TraceKV invariant %s (%s)", r.Variant, tf.Invariant, class),
+						map[string]any{"engine": "B", "variant": r.Variant, "invariant": tf.Invariant, "event": local, "failing_call": r.Events[local], "events_before": r.Events[k0 : local+1], "run": metaOnly(r)})
 				} else {
 					c.Inconclusive(fmt.Sprintf("engine B: %s seed %d: %s at call %d did not reproduce", r.Variant, r.Seed, tf.Invariant, local))
 				}
